@@ -455,6 +455,23 @@ func (x *gen) matching(l, r ex, allowGroup bool) string {
 			excl = ls
 		}
 		inc = x.labelList("incl", excl)
+		if g.ExcludeIncludeAbsent {
+			one := r
+			if gm == "group_right" {
+				one = l
+			}
+			if n, err := Parse(one.s); err == nil {
+				var kept []string
+				for _, name := range inc {
+					if MayCarry(n, name) {
+						kept = append(kept, name)
+					} else {
+						x.excluded("include-absent")
+					}
+				}
+				inc = kept
+			}
+		}
 	}
 	// a bare group_left must not be followed by "(" (it would be read as its label list)
 	bareOK := r.atom && len(r.s) > 0 && r.s[0] != '(' && r.s[0] != '-'
